@@ -1,4 +1,4 @@
-import Yuiv.Proofs.C09
+import Yuiv.Proofs.C09Inv
 /-
 C09 — Smith normal form: `D = P·A·Q`, diagonal divisibility chain, true inverses.
 
@@ -122,5 +122,119 @@ theorem snfTransformOk_sound_fp (p : Nat) [NeZero p] {m n : Nat} (A D : Mat Nat 
     toM φ Pinv * toM φ P = 1 ∧ toM φ Qinv * toM φ Q = 1 ∧
     toM φ A = toM φ Pinv * toM φ D * toM φ Qinv :=
   snfTransformOk_sound (lawful_fp p) A D P Pinv Q Qinv h
+
+/-! ### (T) the transform invariant
+
+`Inv φ A s` : `s.p · A · s.q = s.t ∧ s.p · s.pinv = 1 ∧ s.q · s.qinv = 1` (as Mathlib matrices).
+Each mirrored primitive of `snf.rs` preserves it; hence every control path of the code model does. -/
+
+theorem prim_swap_rows {φ : α → R} {m n : Nat} {A : Mat α m n} (s : St α m n) (i j : Fin m) (hij : i ≠ j)
+    (h : Inv φ A s) : Inv φ A (sSwapRows s i j) := inv_sSwapRows s i j hij h
+
+theorem prim_swap_cols {φ : α → R} {m n : Nat} {A : Mat α m n} (s : St α m n) (i j : Fin n) (hij : i ≠ j)
+    (h : Inv φ A s) : Inv φ A (sSwapCols s i j) := inv_sSwapCols s i j hij h
+
+/-- `mul_row(i, u)`: whenever it does not panic (`u.inv()` is `Some`) -/
+theorem prim_mul_row {e : EOps α} {φ : α → R} (L : LawfulE e φ) {m n : Nat} {A : Mat α m n}
+    (s s' : St α m n) (i : Fin m) (u : α) (hs : sMulRow e s i u = .ok s') (h : Inv φ A s) : Inv φ A s' :=
+  inv_sMulRow L s s' i u hs h
+
+theorem prim_mul_col {e : EOps α} {φ : α → R} (L : LawfulE e φ) {m n : Nat} {A : Mat α m n}
+    (s s' : St α m n) (j : Fin n) (u : α) (hs : sMulCol e s j u = .ok s') (h : Inv φ A s) : Inv φ A s' :=
+  inv_sMulCol L s s' j u hs h
+
+/-- `left_elementary([a,b,c,d], i, j)` (release build, no assertion): needs exactly `a·d − b·c = 1` and `i ≠ j` -/
+theorem prim_left_elementary {e : EOps α} {φ : α → R} (L : LawfulE e φ) {m n : Nat} {A : Mat α m n}
+    (s : St α m n) (a b c d : α) (i j : Fin m) (hij : i ≠ j) (hdet : φ a * φ d - φ b * φ c = 1)
+    (h : Inv φ A s) : Inv φ A (sLeftRaw e.toROps s a b c d i j) :=
+  inv_sLeftRaw L.toLawful s a b c d i j hij hdet h
+
+theorem prim_right_elementary {e : EOps α} {φ : α → R} (L : LawfulE e φ) {m n : Nat} {A : Mat α m n}
+    (s : St α m n) (a b c d : α) (i j : Fin n) (hij : i ≠ j) (hdet : φ a * φ d - φ b * φ c = 1)
+    (h : Inv φ A s) : Inv φ A (sRightRaw e.toROps s a b c d i j) :=
+  inv_sRightRaw L.toLawful s a b c d i j hij hdet h
+
+/-- the determinant condition is necessary: with `det ≠ 1` the mirrored `P⁻¹` update is wrong -/
+example : ¬ Inv (id : Int → Int) (⟨#v[#v[1, 0], #v[0, 1]]⟩ : Mat Int 2 2)
+    (sLeftRaw intOps.toROps (St.init intOps.toROps ⟨#v[#v[1, 0], #v[0, 1]]⟩) 2 0 0 1 0 1) := by
+  intro h
+  have := (snfTransformOk_iff lawful_int _ _ _ _ _ _).2 h
+  revert this; decide
+
+/-- **snf_transform_inv** — for every input matrix, every fuel and every control path of the code model of
+`SnfCalc::process` (debug build, i.e. with the `debug_assert!`s of `left/right_elementary` compiled in):
+whenever it returns, `result = P·A·Q`, `P·P⁻¹ = I`, `Q·Q⁻¹ = I`.  `pre` is the LLL–HNF preprocessing,
+assumed to preserve the invariant (that is C10's `lll_transform_inv`); the ring operations are arbitrary
+`LawfulE` operations — in particular NOTHING is assumed about `gcdx`, `/`, `%`, `normalizing_unit`. -/
+theorem snf_transform_inv {e : EOps α} {φ : α → R} (L : LawfulE e φ) {m n : Nat} (A : Mat α m n)
+    (pre : St α m n → Res (St α m n)) (hpre : ∀ s s', pre s = .ok s' → Inv φ A s → Inv φ A s')
+    (fuel : Nat) (s : St α m n) (hs : snfCalc e true pre fuel A = .ok s) :
+    toM φ s.p * toM φ A * toM φ s.q = toM φ s.t ∧ toM φ s.p * toM φ s.pinv = 1 ∧
+      toM φ s.q * toM φ s.qinv = 1 :=
+  inv_snfCalc L pre hpre fuel s hs
+
+/-- the same for the reference SNF of the driver (no assumption at all) -/
+theorem ref_transform_inv {e : EOps α} {φ : α → R} (L : LawfulE e φ) {m n : Nat} (A : Mat α m n)
+    (fuel : Nat) (s : St α m n) (hs : refSnf e fuel A = .ok s) :
+    toM φ s.p * toM φ A * toM φ s.q = toM φ s.t ∧ toM φ s.p * toM φ s.pinv = 1 ∧
+      toM φ s.q * toM φ s.qinv = 1 :=
+  inv_refSnf L fuel s hs
+
+theorem snf_transform_inv_int {m n : Nat} (A : Mat Int m n) (fuel : Nat) (s : St Int m n)
+    (hs : snfCalc intOps true (fun s => .ok s) fuel A = .ok s) :
+    toM id s.p * toM id A * toM id s.q = toM id s.t ∧ toM id s.p * toM id s.pinv = 1 ∧
+      toM id s.q * toM id s.qinv = 1 :=
+  snf_transform_inv lawfulE_int A _ (fun s s' h hi => by injection h with h; subst h; exact hi) fuel s hs
+
+/-- the hypothesis "`snfCalc` returns" is satisfiable non-trivially (and the diagonal is the expected one) -/
+example : (match snfCalc intOps true (fun s => .ok s) 50 (⟨#v[#v[2, 4], #v[6, 8]]⟩ : Mat Int 2 2) with
+    | .ok s => diagL s.t == [2, 4]
+    | _ => false) = true := by decide +kernel
+
+/-! ### (W) the local `gcdx` wrapper (`snf.rs:437-446`)
+
+`gcdxW x y` returns `(d, a, 0)` with `a = x/d` whenever `a` is a unit.  The 2×2 matrix `[s, t; −b, a]` built from it
+has determinant `a²` on that path, so the hypothesis the proof needs is exactly `a² = 1`:
+ * over ℤ it always holds (`±1`);
+ * in ℤ[i], ℤ[ω], fields, k[x] it holds when the pivot `x` is normalised (then `x` and the normalised gcd `d` are
+   associates that are both normalised, so `a = 1`) — which `eliminate_step` establishes (`mul_col` by the
+   normalising unit) and `eliminate_row/col` maintain (the new pivot is `d`);
+ * it FAILS for an un-normalised pivot, e.g. `x = 2i, y = 4` in ℤ[i]: `d = 2, a = i`, determinant `−1`.
+On the regular path the determinant is 1 by Bézout and exact division. -/
+theorem gcdxW_det_one [IsDomain R] {e : EOps α} {φ : α → R} (L : Lawful e.toROps φ) (x y : α)
+    (hbez : φ (e.gcdx x y).2.1 * φ x + φ (e.gcdx x y).2.2 * φ y = φ (e.gcdx x y).1)
+    (hd : φ (e.gcdx x y).1 ≠ 0)
+    (hx : φ (e.quo x (e.gcdx x y).1) * φ (e.gcdx x y).1 = φ x)
+    (hy : φ (e.quo y (e.gcdx x y).1) * φ (e.gcdx x y).1 = φ y)
+    (hunit : e.isUnit (e.quo x (e.gcdx x y).1) = true →
+      φ (e.quo x (e.gcdx x y).1) * φ (e.quo x (e.gcdx x y).1) = 1) :
+    φ (gcdxW e x y).2.1 * φ (e.quo x (gcdxW e x y).1)
+      - φ (gcdxW e x y).2.2 * φ (e.neg (e.quo y (gcdxW e x y).1)) = 1 := by
+  unfold gcdxW
+  simp only
+  split
+  · rename_i hu
+    simp only [L.zero, L.neg]
+    rw [zero_mul, sub_zero]
+    exact hunit hu
+  · simp only [L.neg]
+    apply mul_right_cancel₀ hd
+    rw [one_mul]
+    calc _ = φ (e.gcdx x y).2.1 * (φ (e.quo x (e.gcdx x y).1) * φ (e.gcdx x y).1)
+            + φ (e.gcdx x y).2.2 * (φ (e.quo y (e.gcdx x y).1) * φ (e.gcdx x y).1) := by ring
+      _ = _ := by rw [hx, hy, hbez]
+
+/-- over ℤ the extra hypothesis of `gcdxW_det_one` is vacuous: a unit quotient squares to 1 -/
+theorem int_unit_sq (a : Int) (h : intOps.isUnit a = true) : a * a = 1 := by
+  simp only [intOps, Bool.or_eq_true, beq_iff_eq] at h
+  rcases h with rfl | rfl <;> rfl
+
+/-- "pivot is normalised" ⇒ the hypothesis: if `x = a·d` with `a` a unit and both `x`, `d` normalised, and the
+normalised representative of an associate class is unique, then `a = 1` -/
+theorem unit_quot_one_of_normalised (N : R → Prop)
+    (huniq : ∀ u z : R, IsUnit u → z ≠ 0 → N z → N (u * z) → u = 1)
+    (a d x : R) (ha : IsUnit a) (hx : a * d = x) (hd0 : d ≠ 0) (hNd : N d) (hNx : N x) : a * a = 1 := by
+  have : a = 1 := huniq a d ha hd0 hNd (hx ▸ hNx)
+  rw [this, one_mul]
 
 end Yuiv.C09
